@@ -19,7 +19,8 @@ type WKTOpts struct {
 	Degree string
 	// Names: how the free-text names are written. 0: plain (no commas anywhere); 1: spheroid names as the tables have
 	// them, commas included ("GRS 1980(IUGG, 1980)"), a comma in the name of a spheroid given by (a, 1/f) and in the
-	// PROJCS and GEOGCS names; 2: one-character GEOGCS, PROJCS and (for datums given by TOWGS84) DATUM names
+	// PROJCS and GEOGCS names; 2: one-character GEOGCS, PROJCS and (for datums given by TOWGS84) DATUM names; 3: for
+	// datums given by TOWGS84, a DATUM name from RealDatumNames
 	Names int `json:"names,omitempty"`
 }
 
@@ -38,6 +39,11 @@ var WKTDatumNames = map[string][]string{
 	"potsdam": {"Potsdam"}, "hermannskogel": {"Hermannskogel"}, "ggrs87": {"GGRS87"}, "rnb72": {"Reseau_National_Belge_1972", "rnb72"},
 	"ire65": {"ire65"}, "nad83": {"nad83"},
 }
+
+// RealDatumNames: names of datums that are NOT in the library's table, as GDAL and ESRI write them.
+var RealDatumNames = []string{"World_Geodetic_System_1972", "WGS_1972", "World_Geodetic_System_1966", "WGS_1972_Transit_Broadcast_Ephemeris",
+	"North_American_Datum_1927", "NAD83_High_Accuracy_Reference_Network", "European_Datum_1950", "Pulkovo_1942", "Tokyo", "OSGB_1970_SN",
+	"Potsdam_Rauenberg_1950_DHDN", "CH1903+", "Geocentric_Datum_of_Australia_1994", "Hermannskogel_Datum_MGI"}
 
 // WKT renders d (one of merc, lcc 2SP, aea, eqdc, tmerc, longlat with Greenwich prime meridian and enu axes) as OGC WKT.
 // Linear parameters are written in the declared linear unit, angular ones in degrees. variant picks the datum name spelling.
@@ -113,6 +119,12 @@ func (d Def) wkt(o WKTOpts, variant int) string {
 		gname, pcsname = "G", "P"
 		if d.DatumKind != "name" {
 			dname = "D"
+		}
+	case 3:
+		// the names that real files give to datums other than the registered ones (their shifts come from the TOWGS84
+		// clause): some of them begin like, or contain, the name of a registered datum
+		if d.DatumKind != "name" {
+			dname = RealDatumNames[variant%len(RealDatumNames)]
 		}
 	}
 	auth := func(code string) string {
